@@ -309,6 +309,16 @@ def run(ctx, rep):
     c11.length_domain(ctx, rep)
     rep.instances[before:] = [i for i in rep.instances[before:] if i["rule"] == "R11.3"]
     rep.floors.pop("R11.4", None)
+    # the allowed-cars word of IS_PLC / SMALL_ALC: each car's bit is the specification's constant (checked above), and the
+    # hand-written encoder must use, for every car, the constant the decoder tests (R13.3, shared with C13)
+    from props import c13
+    before = len(rep.instances)
+    keep_expl, keep_ass = rep.explanation, list(rep.assumptions)
+    c13.run(ctx, rep)
+    rep.explanation, rep.assumptions = keep_expl, keep_ass
+    rep.instances[before:] = [i for i in rep.instances[before:] if i["rule"] == "R13.3"]
+    for r_ in ("R13.0", "R13.1", "R13.2"):
+        rep.floors.pop(r_, None)
 
 
 def hand_tables(ctx, rep):
